@@ -126,6 +126,45 @@ theorem workers_share_concurrent (c0 : Config) (a0 : Option Nat) (cfgs : List Co
   obtain ⟨e2, s2⟩ := fresh w2 hw2 ent2 hm2
   exact workers_share_entry c0 a0 cfgs _ ho' w1 w2 env ent1 ent2 hm1 hm2 e1 e2 (s1.trans s2.symm)
 
+/-- the steps of `InMemCollector.reloadConfigs` and what follows it, in the order the code performs
+them: the factory is cleared first; then (stress relief is updated, and meanwhile) a worker `w` that
+has not been signalled yet may make a decision for `env`; then all workers `ws` are signalled, handle
+the signal (dropping their cached samplers) and ask for `env` again in some order `ws'`. -/
+def reloadSeq (w : Nat) (env : Str) (ws ws' : List Nat) : List Op :=
+  [.clear, .get w env] ++ ws.map Op.wreload ++ ws'.map fun w' => Op.get w' env
+
+/-- **workers_share_after_reload** — after a reload performed in the code's order (clear the
+factory, then signal the workers), whatever a worker did in the middle of it and in whatever order
+the workers come back: all of them hold the same instances for the sampler key, slot by slot. -/
+theorem workers_share_after_reload (c0 : Config) (a0 : Option Nat) (cfgs : List Config) (ops : List Op)
+    (env : Str) (henv : ':' ∉ env) (ho : OpsIn (fun e => ':' ∉ e) ops) (w : Nat) (ws ws' : List Nat)
+    (hperm : ws'.Perm ws) :
+    ∀ w1 ∈ ws, ∀ w2 ∈ ws, ∀ ent1 ent2,
+      ((w1, env), ent1) ∈ (run c0 a0 cfgs (ops ++ reloadSeq w env ws ws')).caches →
+      ((w2, env), ent2) ∈ (run c0 a0 cfgs (ops ++ reloadSeq w env ws ws')).caches →
+      ent1.slots.map (·.id) = ent2.slots.map (·.id) := by
+  have ho1 : OpsIn (fun e => ':' ∉ e) (ops ++ ([.clear, .get w env] ++ ws.map Op.wreload)) := by
+    intro w' e hm
+    rcases List.mem_append.mp hm with h | h
+    · exact ho w' e h
+    · rcases List.mem_append.mp h with h | h
+      · simp at h; rw [h.2]; exact henv
+      · obtain ⟨x, _, hx⟩ := List.mem_map.mp h; cases hx
+  have hfresh : ∀ w' ∈ ws, ∀ ent,
+      ((w', env), ent) ∉ (run c0 a0 cfgs (ops ++ ([.clear, .get w env] ++ ws.map Op.wreload))).caches := by
+    intro w' hw' ent hm
+    have e : run c0 a0 cfgs (ops ++ ([.clear, .get w env] ++ ws.map Op.wreload)) =
+        (ws.map fun x => Op.wreload x).foldl (step cfgs) (run c0 a0 cfgs (ops ++ [.clear, .get w env])) := by
+      simp [run, List.foldl_append]
+    rw [e] at hm
+    exact (foldl_wreload_caches cfgs ws _ _ ent hm).2 hw'
+  have := workers_share_concurrent c0 a0 cfgs _ env henv ho1 ws ws' hperm hfresh
+  have e : ops ++ reloadSeq w env ws ws' =
+      (ops ++ ([.clear, .get w env] ++ ws.map Op.wreload)) ++ ws'.map fun w' => Op.get w' env := by
+    simp [reloadSeq, List.append_assoc]
+  rw [e]
+  exact this
+
 /-! ### reload -/
 
 /-- **reload_clears (registry)** — `ClearDynsamplers` leaves no instance and no goal bookkeeping behind. -/
